@@ -16,10 +16,10 @@ PID = 'C05'
 LEVEL = 'exploration'
 BUDGET_S = {'quick': 40, 'thorough': 600}
 FLOORS = {'quick': {'evaluations': 2000000, 'readback_of_written': 300000, 'sweep_reads': 2000000, 'directed_histories': 300,
-                    'exhaustive_histories': 65216, 'random_histories': 800},
-          'thorough': {'evaluations': 300000, 'readback_of_written': 80000, 'sweep_reads': 300000}}
+                    'exhaustive_histories': 65216, 'random_histories': 800, 'handle_switches': 4000},
+          'thorough': {'evaluations': 300000, 'readback_of_written': 80000, 'sweep_reads': 300000, 'handle_switches': 4000}}
 RULE = ("case = one operation history (store, store_tiles, load, load_tiles +-metadata, is_cached, remove, "
-        "remove_tiles, cleanup, reopen) on one backend configuration over addresses chosen to collide in that "
+        "remove_tiles, cleanup, reopen, continue through another backend object on the same files) on one backend configuration over addresses chosen to collide in that "
         "backend's addressing; exhaustive: every history of length <=2 (quick) / <=3 (thorough) over a 4-address "
         "alphabet per configuration, plus random histories of length 5-40. evaluations = oracle comparisons "
         "(per-op result vs dict model + final sweep through a fresh object). distinct = (backend config, "
@@ -71,6 +71,9 @@ def value(vid):
 _GRID = None
 
 
+SQLITE_TIMEOUT = 0.5   # busy timeout of the sqlite backends; single-threaded histories never wait legitimately
+
+
 def make_cache(cfg, d):
     global _GRID
     k = cfg['kind']
@@ -80,19 +83,19 @@ def make_cache(cfg, d):
                          link_single_color_images=cfg['link'] or False)
     if k in ('mbtiles', 'mbtiles_ts'):
         from mapproxy.cache.mbtiles import MBTilesCache
-        return MBTilesCache(os.path.join(d, 'c.mbtiles'), with_timestamps=(k == 'mbtiles_ts'))
+        return MBTilesCache(os.path.join(d, 'c.mbtiles'), with_timestamps=(k == 'mbtiles_ts'), timeout=SQLITE_TIMEOUT)
     if k == 'sqlite':
         from mapproxy.cache.mbtiles import MBTilesLevelCache
-        return MBTilesLevelCache(os.path.join(d, 'c'))
+        return MBTilesLevelCache(os.path.join(d, 'c'), timeout=SQLITE_TIMEOUT)
     if k in ('geopackage', 'geopackage_levels'):
         from mapproxy.grid import tile_grid
         if _GRID is None:
             _GRID = tile_grid(3857, num_levels=24)
         if k == 'geopackage':
             from mapproxy.cache.geopackage import GeopackageCache
-            return GeopackageCache(os.path.join(d, 'c.gpkg'), _GRID, 'tiles')
+            return GeopackageCache(os.path.join(d, 'c.gpkg'), _GRID, 'tiles', timeout=SQLITE_TIMEOUT)
         from mapproxy.cache.geopackage import GeopackageLevelCache
-        return GeopackageLevelCache(os.path.join(d, 'c'), _GRID, 'tiles')
+        return GeopackageLevelCache(os.path.join(d, 'c'), _GRID, 'tiles', timeout=SQLITE_TIMEOUT)
     if k == 'compact1':
         from mapproxy.cache.compact import CompactCacheV1
         return CompactCacheV1(os.path.join(d, 'c'))
@@ -219,7 +222,10 @@ def random_history(cfg, rng):
     length = rng.randint(5, 40)
     ops = []
     single_ok = cfg['link'] is not None
+    nh = rng.choice([1, 1, 2, 3])
     for _ in range(length):
+        if nh > 1 and rng.random() < 0.3:
+            ops.append(['handle', rng.randrange(nh)])
         r = rng.random()
         a = rng.choice(uni)
         same_dim = [b for b in uni if b[3] == a[3]]
@@ -262,6 +268,9 @@ class Exec(object):
         self.readback = 0
         self.dir = run.subdir('c05')
         self.cache = make_cache(cfg, self.dir)
+        self.handles = {0: self.cache}   # several backend objects on the same files (request threads, seeder + server)
+        self.cur = 0
+        self.multi = False
         self.failed = False
 
     def newval(self, kind):
@@ -275,6 +284,8 @@ class Exec(object):
         """mechanism-level description of an op (for finding classification / distinct classes)."""
         f = {'backend': self.cfg['kind'], 'layout': self.cfg['layout'], 'link': self.cfg['link'],
              'dims': self.cfg['dims'], 'op': op}
+        if self.multi:
+            f['handles'] = 'several'
         if group:
             levels = [a[2] for a in group]
             f['bulk_first_level0'] = (levels[0] == 0)
@@ -329,7 +340,16 @@ class Exec(object):
         c = self.cache
         k = op[0]
         try:
-            if k == 'store':
+            if k == 'handle':
+                # continue through another backend object on the same files
+                self.multi = True
+                self.handles[self.cur] = self.cache
+                self.cur = op[1]
+                if self.cur not in self.handles:
+                    self.handles[self.cur] = make_cache(self.cfg, self.dir)
+                self.cache = self.handles[self.cur]
+                self.run.hit('handle_switches')
+            elif k == 'store':
                 a = op[1]
                 vid = self.newval(op[2] if len(op) > 2 else 'U')
                 c.store_tile(self.tile(a, vid), dimensions=dimdict(a[3]))
@@ -384,6 +404,7 @@ class Exec(object):
                 if hasattr(c, 'cleanup'):
                     c.cleanup()
                 self.cache = make_cache(self.cfg, self.dir)
+                self.handles[self.cur] = self.cache
         except Exception as ex:
             import traceback
             f = self.flags(k, op[1] if k.endswith('_many') else None)
@@ -393,9 +414,29 @@ class Exec(object):
 
     def sweep(self):
         """fresh object; read back the whole universe through every read path."""
-        if hasattr(self.cache, 'cleanup'):
-            self.cache.cleanup()
+        self.handles[self.cur] = self.cache
+        if self.multi:
+            # every object that took part must give the same answers as the fresh one
+            for h in sorted(self.handles):
+                if h == self.cur:
+                    continue
+                for a in sorted(set(self.model) | self.touched, key=lambda a: (str(a[3]), a[2], a[0], a[1])):
+                    t = self.tile(a)
+                    try:
+                        self.handles[h].load_tile(t, dimensions=dimdict(a[3]))
+                        self.expect(a, read_source(t), 'load_tile', i='sweep-handle%d' % h)
+                    except Exception as ex:
+                        f = self.flags('sweep')
+                        f['obs'] = 'exception'
+                        f['exc'] = type(ex).__name__
+                        self.fail(f, "sweep through handle %d raised %r" % (h, ex))
+                        break
+        for h, c in self.handles.items():
+            if hasattr(c, 'cleanup'):
+                c.cleanup()
         self.cache = make_cache(self.cfg, self.dir)
+        self.handles = {0: self.cache}
+        self.cur = 0
         uni = set(self.universe) | set(self.model) | self.touched
         # neighbours in the backend's addressing of everything touched
         for a in list(self.touched):
@@ -453,17 +494,18 @@ class Exec(object):
                 self.do(i, op)
             self.sweep()
         finally:
-            try:
-                if hasattr(self.cache, 'cleanup'):
-                    self.cache.cleanup()
-            except Exception:
-                pass
+            for c in [self.cache] + list(self.handles.values()):
+                try:
+                    if hasattr(c, 'cleanup'):
+                        c.cleanup()
+                except Exception:
+                    pass
             shutil.rmtree(self.dir, ignore_errors=True)
         # class of the history: config + op kinds with collision class of each address vs. earlier ones
         seen = []
         sig = []
         for op in self.ops:
-            if op[0] in ('cleanup', 'reopen'):
+            if op[0] in ('cleanup', 'reopen', 'handle'):
                 sig.append(op[0])
                 continue
             addrs = [op[1]] if op[0] in ('store', 'load', 'cached', 'remove') else op[1]
@@ -509,6 +551,14 @@ def directed_histories(cfg):
     # bulk store across levels
     hs.append([['store_many', [[0, 0, 0, d], [1, 0, 1, d], [1, 0, 2, d]]],
                ['load', [0, 0, 0, d], False], ['load', [1, 0, 1, d], False], ['load', [1, 0, 2, d], True]])
+    # several backend objects on the same files: an operation through one must not keep the others from working
+    a1, a2, a3 = [0, 0, 0, d], [1, 1, 1, d], [1, 0, 1, d]
+    for first in (['remove', a3], ['remove', a1], ['load', a3, False], ['load', a1, True], ['cached', a3],
+                  ['remove_many', [a3, a2]], ['load_many', [a2, a3], False], ['store', a3], ['cleanup']):
+        hs.append([['store', a1], ['handle', 1], ['load', a1, False], ['handle', 0], first, ['handle', 1],
+                   ['store', a2], ['store', a1], ['load', a2, False], ['handle', 0], ['load', a1, False],
+                   ['load', a2, False], ['remove', a2], ['handle', 2], ['cached', a2], ['store_many', [a2, a3]],
+                   ['handle', 1], ['load_many', [a2, a3], False]])
     if cfg['dims']:
         hs.append([['store', [0, 0, 0, 'A']], ['store', [0, 0, 0, 'B']], ['load', [0, 0, 0, 'A'], False],
                    ['load', [0, 0, 0, None], False], ['remove', [0, 0, 0, 'B']], ['load', [0, 0, 0, 'A'], False]])
